@@ -8,7 +8,7 @@ CMD = @@CMD@@
 SLOTS = @@SLOTS@@
 L = @@L@@
 DOCUMENTED = @@DOCUMENTED@@
-NCP = @@NCP@@           # L per 'n'/'x' slot
+NCP = @@NCP@@           # L per 'n'/'x' slot, 2 L per 'g' slot
 hc.shim_re("real")
 hc.quiet_logging()
 
@@ -25,6 +25,8 @@ def check(cps: $$CPS$$) -> bool:
             args.append("NAME")
         elif s == "EF":
             args.append("EXPECTFAIL")
+        elif s == "g":
+            args.append([pc.take(L), pc.take(L)])
         else:
             x = pc.take(L)
             if x == "NAME" or x == "EXPECTFAIL":
